@@ -5,11 +5,11 @@ CONSTANTS
   CodeMode = "one"
   HdrK = 1
   MaxHdrs = 1
-  MaxBody = 2
+  MaxBody = 1
   BodyMode = "len"
   StyleMode = "one"
   PhraseMode = "reg"
-  MaxBig = 11
+  MaxBig = 10
 SPECIFICATION MCSpec
 INVARIANTS SerValid RoundTrip ParCorrect Bounded LFIndexOk LemmaInv SrvDenotes NeverTrunc
 CHECK_DEADLOCK FALSE
